@@ -5,6 +5,8 @@
 -/
 import Yabgp.Gen.Constants
 import Yabgp.Gen.AttrFlags
+import Yabgp.Gen.Open
+import Yabgp.Model.Open
 import Yabgp.Model.Consts
 import Yabgp.Model.Text
 
@@ -74,6 +76,16 @@ theorem well_known_int2str : Const.wellKnownInt2Str = Text.wellKnown := by decid
 /-- the encoder's reverse table holds the same values under the upper-cased names -/
 theorem well_known_str2int :
     Const.wellKnownStr2Int = Text.wellKnown.map (fun e => (e.1, String.ofList (Text.upper e.2.toList))) := by
+  decide
+
+/-- the address families add-path is decoded for, and the send/receive codes -/
+theorem open_tables : Open.afiSafiKeys = afiSafiKnown ∧ Open.addPathActKeys = [1, 2, 3] := by decide
+
+/-- capability codes dispatched on by Open.parse / Capability.construct, as the model hard-codes them -/
+theorem capability_codes :
+    [Open.MULTIPROTOCOL_EXTENSIONS, Open.ROUTE_REFRESH, Open.EXTENDED_NEXT_HOP, Open.GRACEFUL_RESTART,
+     Open.FOUR_BYTES_ASN, Open.ADD_PATH, Open.ENHANCED_ROUTE_REFRESH, Open.LLGR, Open.CISCO_ROUTE_REFRESH,
+     Open.CISCO_MULTISESSION_BGP, Const.VERSION] = [1, 2, 5, 64, 65, 69, 70, 71, 128, 131, 4] := by
   decide
 
 end Yabgp.GenAgree
